@@ -321,4 +321,46 @@ def rule_f(ctx: Ctx) -> None:
     patterns_slot(ctx, 'C05.f')
 
 
-RULES = [rule_a, rule_b, rule_c, rule_d, rule_e, rule_f, rule_g]
+def rule_h(ctx: Ctx) -> None:
+    """An encoded attribute value is left out only when the encoder returned None or Empty: the empty string is a value (a required
+    attribute with value "" must still be written)."""
+    rule = 'C05.h'
+    f = ctx.idx.method('xmlschema.validators.attributes.XsdAttributeGroup', 'raw_encode')
+    ctx.analysed(f.qualname)
+    g = cfg_of(ctx, f)
+    apps = [(n, c) for n, c in call_nodes(g, lambda c: text(c.func) == 'result.append')]
+    ctx.floor(rule, 'attribute emissions in XsdAttributeGroup.raw_encode', len(apps), 1)
+    for n, c in apps:
+        var = None
+        if c.args and isinstance(c.args[0], ast.Tuple) and len(c.args[0].elts) == 2 and isinstance(c.args[0].elts[1], ast.Name):
+            var = c.args[0].elts[1].id
+        bad = []
+        for t, lab in guards(ctx, f, n):
+            try:
+                e = ast.parse(t, mode='eval').body
+            except SyntaxError:
+                continue
+            atoms = []
+            stack = [e]
+            while stack:
+                x = stack.pop()
+                if isinstance(x, ast.BoolOp):
+                    stack.extend(x.values)
+                elif isinstance(x, ast.UnaryOp) and isinstance(x.op, ast.Not):
+                    stack.append(x.operand)
+                else:
+                    atoms.append(x)
+            for a in atoms:
+                if var and isinstance(a, ast.Name) and a.id == var:
+                    bad.append(t)            # bare truthiness of the encoded value
+                if var and isinstance(a, ast.Call) and text(a.func) in ('bool', 'len') and a.args and text(a.args[0]) == var:
+                    bad.append(t)
+        ok = var is not None and not bad
+        ctx.ob(rule, 'XsdAttributeGroup.raw_encode: an encoded value is dropped only for None/Empty, never for being falsy', f.loc(c), ok,
+               '' if ok else f'`{bad[0][:70] if bad else text(c)}` tests the truthiness of `{var}`: an attribute whose encoded value is "" (or an empty list) is silently '
+               'not written - a required attribute goes missing and the output is rejected by the same schema', key='XsdAttributeGroup.raw_encode|emit-guard')
+    ctx.explain('C05.h: the path condition of `result.append((name, item))` in XsdAttributeGroup.raw_encode contains no truthiness test of '
+                'the encoded value.')
+
+
+RULES = [rule_a, rule_b, rule_c, rule_d, rule_e, rule_f, rule_g, rule_h]
